@@ -88,6 +88,9 @@ func cntAsNative(o pdf.Object) pdf.Object {
 		}
 		return a
 	case pdf.Dict:
+		if x == nil {
+			return x
+		}
 		d := pdf.Dict{}
 		for k, v := range x {
 			d[k] = cntAsNative(v)
@@ -98,6 +101,39 @@ func cntAsNative(o pdf.Object) pdf.Object {
 		return nil
 	}
 	return n
+}
+
+// cntWireSetup: a typed nil Dict is the null object (library fix D99, like a nil Array); it goes
+// over the wire as "N", while "d>" is the empty, non-nil dictionary pdf.Dict{} written as <<>>.
+func cntWireSetup() { wireNilDict = true }
+
+// cntNorm is normObj with a typed nil Dict counted as null.
+func cntNorm(o pdf.Object) pdf.Object {
+	var f func(o pdf.Object) pdf.Object
+	f = func(o pdf.Object) pdf.Object {
+		switch x := o.(type) {
+		case pdf.Dict:
+			if x == nil {
+				return nil
+			}
+			d := pdf.Dict{}
+			for k, v := range x {
+				d[k] = f(v)
+			}
+			return d
+		case pdf.Array:
+			if x == nil {
+				return x
+			}
+			a := make(pdf.Array, len(x))
+			for i, e := range x {
+				a[i] = f(e)
+			}
+			return a
+		}
+		return o
+	}
+	return normObj(f(o))
 }
 
 func cntOpWire(sb *strings.Builder, op content.Operator, norm bool) {
@@ -269,7 +305,7 @@ func cntOpsEqual(a, b []content.Operator) (bool, string) {
 			return false, fmt.Sprintf("operator %d (%s): %d operands read, %d written", i, a[i].Name, len(b[i].Args), len(a[i].Args))
 		}
 		for j := range a[i].Args {
-			if !objEqual(normObj(a[i].Args[j]), normObj(b[i].Args[j])) {
+			if !objEqual(cntNorm(a[i].Args[j]), cntNorm(b[i].Args[j])) {
 				return false, fmt.Sprintf("operator %d (%s) operand %d: %s read as %s", i, a[i].Name, j, wireNorm(a[i].Args[j]), wireNorm(b[i].Args[j]))
 			}
 		}
@@ -455,7 +491,7 @@ func cntClassify(ops []content.Operator) (inDomain bool, hazards []string) {
 					// beyond the reader's defensive limit maxValueDepth (known)
 					hz["inline-image-value-nesting-over-cap"] = true
 				}
-				if isNilObj(v) {
+				if nd, ok := v.(pdf.Dict); isNilObj(v) || (ok && nd == nil) {
 					hz["inline-image-nil-entry"] = true
 				}
 				for i := 0; i < len(k); i++ {
@@ -583,6 +619,9 @@ func cntNonNative(ops []content.Operator) (out []content.Operator, changed bool)
 			}
 			return a
 		case pdf.Dict:
+			if x == nil {
+				return x
+			}
 			d := pdf.Dict{}
 			for k, v := range x {
 				d[k] = conv(v)
